@@ -133,6 +133,20 @@ pub fn main(a: &Args) {
         let extra = ["It costs $1e999 today.", "She said \"teh\ncat\" twice.", "Tab\there teh.", "An 😀 apple teh.",
             "Line\u{2028}sep teh thing.", "Back\\slash teh.", "Ctrl\u{1}char teh.", "0x1F teh 1e308 and 1e-400.",
             "The 9007199254740993th teh.", "CR\r\nLF teh."];
+        // number tokens travel inside the context of a record: whole numbers around 2^53, 2^63 and 2^64, the ends of the
+        // f64 range, and fractions with 16-17 significant digits (the closest f64 is not what a careless parser returns)
+        let mut extra: Vec<String> = extra.iter().map(|s| s.to_string()).collect();
+        for n in ["9007199254740993", "9223372036854775807", "9223372036854775808", "10000000000000000000", "18446744073709551615", "18446744073709551616",
+            "0xFFFFFFFFFFFFFFFF", "0x8000000000000800", "1.7976931348623157e308", "5e-324", "2.2250738585072014e-308", "0.30000000000000004",
+            "31.245270191439438", "123456789.12345678", "0.1", "1e22", "1e23", "4.35", "2.675", "1234567890123456.7"] {
+            extra.push(format!("The fund moved {n}$ in a single day."));
+            extra.push(format!("It took {n} teh steps."));
+        }
+        for _ in 0..40 {
+            let digits: String = (0..17).map(|i| if i == 0 { (b'1' + rng.below(9) as u8) as char } else { (b'0' + rng.below(10) as u8) as char }).collect();
+            let at = rng.range(1, 16);
+            extra.push(format!("The fund moved {}.{}$ in a single day.", &digits[..at], &digits[at..]));
+        }
         for s in 0..a.num("sessions", 300) {
             let mut batches: Vec<Vec<Record>> = Vec::new();
             for _ in 0..rng.range(1, 3) {
@@ -144,7 +158,7 @@ pub fn main(a: &Args) {
                         b.push(Record::now(RecordKind::LintConfigUpdate(cfg)));
                         continue;
                     }
-                    let text = if rng.chance(1, 4) { extra[rng.below(extra.len())].to_string() } else { rng.pick(&corpus[..]).clone() };
+                    let text = if rng.chance(1, 3) { extra[rng.below(extra.len())].to_string() } else { rng.pick(&corpus[..]).clone() };
                     let r = catch(|| {
                         let doc = Document::new(&text, &PlainEnglish, &dict);
                         let lints = lg.lint(&doc);
